@@ -406,8 +406,8 @@ func rulePRecurseConsume(p *Program, r *Reporter) {
 
 func rulePLexProgress(p *Program, r *Reporter) {
 	fns := p.ReachFuncs(p.Lexer)
-	for _, name := range []string{"parseQuotedIdentifier", "parseStringLiteral"} {
-		if f := p.Func(p.Parser, "", name); f != nil {
+	for _, kind := range []string{"quoted", "string"} {
+		if f := literalHelpers(p)[kind]; f != nil {
 			fns = append(fns, f)
 		}
 	}
